@@ -27,7 +27,7 @@ RefRow(b, isbad, ks, odd) ==      \* odd: a good bin sits exactly on its thresho
                [] k = "hi" -> IF isbad THEN 64 - MinRefLog2 ELSE IF odd THEN 0 - MinRefLog2 ELSE 0 - MinRefLog2 - 64
                [] OTHER -> 64 * (2 * b - 5)
         sp == CASE k = "spread" -> IF isbad THEN SU + 1 ELSE IF odd THEN SU ELSE SU - 1
-                [] OTHER -> 200 + 8 * b
+                [] OTHER -> 200000 + 8000 * b
         dp == CASE k = "depth" -> IF isbad THEN 0 ELSE 1
                 [] OTHER -> 80
         g == CASE k = "gclo" -> IF isbad THEN GcLo - 1 ELSE IF odd THEN GcLo ELSE GcLo + 1
